@@ -1,8 +1,8 @@
 fn main() {
     let a: Vec<String> = std::env::args().collect();
-    if a.get(1).map(|s| s.as_str()) == Some("dump-catalogue") {
-        vf_eng_e::env::dump_catalogue();
-        return;
+    match a.get(1).map(|s| s.as_str()) {
+        Some("dump-catalogue") => vf_eng_e::env::dump_catalogue(),
+        Some("authzone-scenario") => vf_eng_e::scenario::authzone_scenario(),
+        _ => vf_core::main_with(vf_eng_e::checks()),
     }
-    vf_core::main_with(vf_eng_e::checks());
 }
